@@ -66,15 +66,17 @@ Record ist := mkI {
   v_reset_dirty : bool;   (* sticky: an async_reset returned with a spa or descriptors present *)
   v_died : bool;          (* sticky: a task died on an AssertionError / AttributeError inside the manager *)
   cur_open : bool;        (* the datagram endpoint of the spa object the manager references is open *)
-  v_leak : bool }.        (* sticky: a spa object with an open endpoint was dropped (self._spa = None) without being disconnected *)
+  v_leak : bool;          (* sticky: a spa object with an open endpoint was dropped (self._spa = None) without being disconnected *)
+  fac_live : bool;        (* the tasks of the facade object the manager references are alive (created and not disconnected since) *)
+  v_fleak : bool }.       (* sticky: a facade whose tasks are alive was dropped (self._facade = None / overwritten) without being disconnected *)
 
 Definition ist_eqb (a b : ist) : bool :=
   mst_eqb (gs a) (gs b) && ptask_eqb (tp a) (tp b) && task_eqb (te a) (te b) && task_eqb (tu a) (tu b) &&
   Bool.eqb (ecancel a) (ecancel b) && Bool.eqb (v_reset_dirty a) (v_reset_dirty b) && Bool.eqb (v_died a) (v_died b) &&
-  Bool.eqb (cur_open a) (cur_open b) && Bool.eqb (v_leak a) (v_leak b).
+  Bool.eqb (cur_open a) (cur_open b) && Bool.eqb (v_leak a) (v_leak b) && Bool.eqb (fac_live a) (fac_live b) && Bool.eqb (v_fleak a) (v_fleak b).
 
 (* ---------- one burst ---------- *)
-Record bst := mkB { b_g : mst; b_kill_e : bool; b_dirty : bool; b_died : bool; b_open : bool; b_leak : bool; b_new_spa : bool; b_over : bool }.
+Record bst := mkB { b_g : mst; b_kill_e : bool; b_dirty : bool; b_died : bool; b_open : bool; b_leak : bool; b_new_spa : bool; b_over : bool; b_flive : bool; b_fleak : bool }.
 Inductive bend := BYield (k : list instr) | BWait (p : pc) | BDone | BFuel.
 
 Definition exc_code : list instr := if pump_survives then [IReset; IWait PIdle] else [IWait PDead].
@@ -88,7 +90,7 @@ Fixpoint burst (fuel : nat) (who : slot) (b : bst) (k : list instr) : bst * bend
       | [] => (b, BDone, [])
       | i :: r =>
           let s := b_g b in
-          let go s' k' := burst f who (mkB s' (b_kill_e b) (b_dirty b) (b_died b) (b_open b) (b_leak b) (b_new_spa b) (b_over b)) k' in
+          let go s' k' := burst f who (mkB s' (b_kill_e b) (b_dirty b) (b_died b) (b_open b) (b_leak b) (b_new_spa b) (b_over b) (b_flive b) (b_fleak b)) k' in
           match i with
           | IEnter e =>
               match ss s with
@@ -104,28 +106,31 @@ Fixpoint burst (fuel : nat) (who : slot) (b : bst) (k : list instr) : bst * bend
               | AReset => go s (IReset :: r)
               | ASensor => go s r
               | AWatercare => if fac s && spa s then go s r     (* assert facade / spa ; await spa.async_get_watercare() *)
-                              else (mkB s (b_kill_e b) (b_dirty b) true (b_open b) (b_leak b) (b_new_spa b) (b_over b), BDone, [])
+                              else (mkB s (b_kill_e b) (b_dirty b) true (b_open b) (b_leak b) (b_new_spa b) (b_over b) (b_flive b) (b_fleak b), BDone, [])
               end
           | IPost e =>
               let s2 := match ss s with Some _ => upd_ss s (Some (st s)) | None => s end in
               let s3 := monitor s2 e in
-              (mkB s3 (b_kill_e b) (b_dirty b) (b_died b) (b_open b) (b_leak b) (b_new_spa b) (b_over b), BYield r, [(e, st s3, fac s3, ss s3)])
+              (mkB s3 (b_kill_e b) (b_dirty b) (b_died b) (b_open b) (b_leak b) (b_new_spa b) (b_over b) (b_flive b) (b_fleak b), BYield r, [(e, st s3, fac s3, ss s3)])
           | IReset =>
               let s1 := upd_objs s (fac s) (spa s) false in
               let s2 := if reset_clears_facade_last then s1 else upd_objs s1 false (spa s1) (desc s1) in
-              go s2 (IRSpa :: r)
+              (* if self._facade is not None: await self._facade.disconnect()  (cancels the FACADE tasks; it has no suspension point) *)
+              burst f who (mkB s2 (b_kill_e b) (b_dirty b) (b_died b) (b_open b) (b_leak b) (b_new_spa b) (b_over b) false (b_fleak b)) (IRSpa :: r)
           | IRSpa => if spa s then go s (IEnter RUNNING_SPA_DISCONNECTED :: IRDisc :: (if reset_loops_until_no_spa then IRSpa else IRFin) :: r) else go s (IRFin :: r)
-          | IRDisc => burst f who (mkB (upd_objs s (fac s) false (desc s)) true (b_dirty b) (b_died b) false (b_leak b) (b_new_spa b) (b_over b)) r
+          | IRDisc => burst f who (mkB (upd_objs s (fac s) false (desc s)) true (b_dirty b) (b_died b) false (b_leak b) (b_new_spa b) (b_over b) (b_flive b) (b_fleak b)) r
           | IRDiscStale =>
               (* the old object is closed and its - all - SPA tasks are cancelled; the reference that is cleared is the new object's *)
               if reset_loops_until_no_spa then
                 (* 'if self._spa is spa' fails: the new reference stays (the loop disconnects that object next) *)
-                burst f who (mkB s true (b_dirty b) (b_died b) (b_open b) (b_leak b) (b_new_spa b) (b_over b)) r
+                burst f who (mkB s true (b_dirty b) (b_died b) (b_open b) (b_leak b) (b_new_spa b) (b_over b) (b_flive b) (b_fleak b)) r
               else
-              burst f who (mkB (upd_objs s (fac s) false (desc s)) true (b_dirty b) (b_died b) false (b_leak b || (spa s && b_open b)) (b_new_spa b) (b_over b)) r
+              burst f who (mkB (upd_objs s (fac s) false (desc s)) true (b_dirty b) (b_died b) false (b_leak b || (spa s && b_open b)) (b_new_spa b) (b_over b) (b_flive b) (b_fleak b)) r
           | IRFin =>
               let s1 := upd_st (upd_objs s false (spa s) (if reset_clears_descriptors_last then false else desc s)) IDLE in
-              burst f who (mkB s1 (b_kill_e b) (b_dirty b || spa s1 || desc s1) (b_died b) (b_open b) (b_leak b) (b_new_spa b) (b_over b)) r
+              (* a facade created since the reset began: disconnected here (reset_disconnects_facade_last) or dropped alive *)
+              burst f who (mkB s1 (b_kill_e b) (b_dirty b || spa s1 || desc s1) (b_died b) (b_open b) (b_leak b) (b_new_spa b) (b_over b) false
+                               (b_fleak b || (b_flive b && negb reset_disconnects_facade_last))) r
           | ISetId => go (upd_id s true) r
           | ISetDesc => go (upd_objs s (fac s) (spa s) true) r
           | IAfterLoc fc found =>
@@ -135,8 +140,11 @@ Fixpoint burst (fuel : nat) (who : slot) (b : bst) (k : list instr) : bst * bend
                 else go s (IEnter SPA_NOT_FOUND :: IWait PIdle :: nil)
               else go s (IWait PIdle :: nil)
           | IAssertNoFac => if fac s then go s (IExc :: nil) else go s r
-          | ISetSpa => burst f who (mkB (upd_objs s (fac s) true (desc s)) (b_kill_e b) (b_dirty b) (b_died b) true (b_leak b) true (b_over b || (spa s && b_open b))) r
-          | IFacadeIfReady => if sstate_eqb (st s) SPA_READY then go (upd_objs s true (spa s) (desc s)) r else go s r
+          | ISetSpa => burst f who (mkB (upd_objs s (fac s) true (desc s)) (b_kill_e b) (b_dirty b) (b_died b) true (b_leak b) true (b_over b || (spa s && b_open b)) (b_flive b) (b_fleak b)) r
+          | IFacadeIfReady => if sstate_eqb (st s) SPA_READY
+                              then burst f who (mkB (upd_objs s true (spa s) (desc s)) (b_kill_e b) (b_dirty b) (b_died b) (b_open b) (b_leak b) (b_new_spa b) (b_over b)
+                                                    true (b_fleak b || b_flive b)) r
+                              else go s r
           | ICondNotFound => if sstate_eqb (st s) ERROR_SPA_NOT_FOUND then go s (IReset :: r) else go s r
           | IExc => go s exc_code
           | IWait p => (b, BWait p, [])
@@ -223,7 +231,7 @@ Definition exec (s : ist) (who : slot) (k : list instr) : ist * list delivery :=
   let dead_e := ecancel s && negb (slot_eqb who SE) in
   let te0 := if dead_e then TNone else te s in
   let ec0 := if dead_e then false else ecancel s in
-  let '(b, fin, d) := burst BFUEL who (mkB (gs s) false false false (cur_open s) false false false) k in
+  let '(b, fin, d) := burst BFUEL who (mkB (gs s) false false false (cur_open s) false false false (fac_live s) false) k in
   let g := match fin with BFuel => fuel_out (b_g b) | _ => b_g b end in
   let asT := match fin with BYield r => TSusp r | _ => TNone end in
   let tp' := match who with
@@ -238,7 +246,8 @@ Definition exec (s : ist) (who : slot) (k : list instr) : ist * list delivery :=
   let fix_u t := if b_new_spa b then match who with SU => t | _ => stale_task t end else t in
   (mkI (norm g) (fix_p tp') (fix_e te1) (fix_u tu') ec1 (v_reset_dirty s || b_dirty b) (v_died s || b_died b) (b_open b)
        (* a referenced, open spa object was overwritten by a new one while no suspended reset is about to close it *)
-       (v_leak s || b_leak b || (b_over b && negb (ptask_has_disc tp' || task_has_disc te1 || task_has_disc tu'))), d).
+       (v_leak s || b_leak b || (b_over b && negb (ptask_has_disc tp' || task_has_disc te1 || task_has_disc tu')))
+       (b_flive b) (v_fleak s || b_fleak b), d).
 
 Definition istep (s : ist) (l : ilabel) : option (ist * list delivery) :=
   match l with
@@ -246,12 +255,12 @@ Definition istep (s : ist) (l : ilabel) : option (ist * list delivery) :=
   | LResume sl => match resume s sl with Some k => Some (exec s sl k) | None => None end
   end.
 
-Definition iinit (configured : bool) : ist := mkI (norm (init configured)) (PBlocked PIdle) TNone TNone false false false false false.
+Definition iinit (configured : bool) : ist := mkI (norm (init configured)) (PBlocked PIdle) TNone TNone false false false false false false false.
 (* __aenter__ : SPA_MAN_ENTER is delivered before the pump exists; the caller of __aenter__ is the user's task *)
 Definition ienter_label : list instr := [IEnter SPA_MAN_ENTER].
 
 Definition all_ilabels : list ilabel := map LBig all_labels ++ [LResume SP; LResume SE; LResume SU].
-Definition ientered (configured : bool) : ist := mkI (norm (entered configured)) (PBlocked PIdle) TNone TNone false false false false false.
+Definition ientered (configured : bool) : ist := mkI (norm (entered configured)) (PBlocked PIdle) TNone TNone false false false false false false false.
 
 (* ---------- a hash of the state (speed only: Lib/HashReach proves nothing about it) ---------- *)
 Local Open Scope N_scope.
